@@ -10,11 +10,13 @@ import (
 )
 
 func configs(quick bool) []tsssig.Cfg {
-	ev := []string{"de1", "de2", "reset", "req", "reqfail", "oreq", "oreqlow", "sig", "block"}
+	ev := []string{"de1", "de2", "reset", "maxde", "req", "reqfail", "oreq", "oreqlow", "sig", "block"}
+	coll := []string{"req", "sig", "block"} // several signings timing out and retried in the same block
 	if quick {
 		return []tsssig.Cfg{
 			{N: 3, T: 2, SigningPeriod: 1, MaxSigningAttempt: 2, MaxDESize: 2, InitDE: 1, MaxReq: 3, Depth: 5, Events: ev, FeePerSigner: 10},
 			{N: 3, T: 2, SigningPeriod: 2, MaxSigningAttempt: 2, MaxDESize: 1, InitDE: 1, MaxReq: 2, Depth: 6, Events: ev, FeePerSigner: 10},
+			{N: 3, T: 2, SigningPeriod: 1, MaxSigningAttempt: 3, MaxDESize: 4, InitDE: 3, MaxReq: 3, Depth: 8, Events: coll, FeePerSigner: 10},
 		}
 	}
 	var out []tsssig.Cfg
@@ -25,6 +27,8 @@ func configs(quick bool) []tsssig.Cfg {
 			}
 		}
 	}
+	out = append(out, tsssig.Cfg{N: 3, T: 2, SigningPeriod: 1, MaxSigningAttempt: 3, MaxDESize: 5, InitDE: 4, MaxReq: 4, Depth: 11, Events: coll, FeePerSigner: 10},
+		tsssig.Cfg{N: 4, T: 2, SigningPeriod: 2, MaxSigningAttempt: 2, MaxDESize: 4, InitDE: 3, MaxReq: 3, Depth: 10, Events: coll, FeePerSigner: 10})
 	return out
 }
 
@@ -32,12 +36,12 @@ func init() {
 	engine.Register(&engine.Check{
 		ID: "C05",
 		Run: func(r *engine.Run) {
-			r.Bound = "group of 3, t=2 installed by a real DKG; unique nonce tokens; interleavings of SubmitDEs(1|2), ResetDE, RequestSignature, RequestSignature rolled back by a failing second message, oracle results put to the group at block end (created / refused for fee limit / refused for lack of nonces inside the cache context), SubmitSignature, blocks (time-outs, retries); MaxDESize in {1,2,3}; depth 5-6 (quick) / 8 (thorough)"
+			r.Bound = "group of 3, t=2 installed by a real DKG; unique nonce tokens; interleavings of SubmitDEs(1|2), ResetDE, MaxDESize lowered/restored by governance, RequestSignature, RequestSignature rolled back by a failing second message, oracle results put to the group at block end (created / refused for fee limit / refused for lack of nonces inside the cache context), SubmitSignature, blocks (time-outs, retries); MaxDESize in {1,2,3}; depth 5-6 (quick) / 8 (thorough)"
 			r.Assumptions = []string{
 				"committee choice is read back from the stored attempt (C09's subject); checked for eligibility (active, non-empty queue)",
 				"a member never registers the same nonce pair twice (tokens are unique by construction)",
 			}
-			r.Required = []string{"de:ok", "de-rejected-over-max", "reset:ok", "req:ok", "retry", "reqfail:sdk/5", "req-rejected:too-few-eligible", "oracle-signing-created", "oracle-signing-refused:fee-limit", "oracle-signing-refused:too-few-eligible"}
+			r.Required = []string{"de:ok", "de-rejected-over-max", "reset:ok", "req:ok", "retry", "reqfail:sdk/5", "req-rejected:too-few-eligible", "oracle-signing-created", "oracle-signing-refused:fee-limit", "oracle-signing-refused:too-few-eligible", "maxde:ok"}
 			tsssig.Run(r, "C05", configs(r.Quick()), 5*time.Minute, 45*time.Minute)
 		},
 		Replay: tsssig.Replay,
